@@ -108,6 +108,9 @@ func (sc *Scheduler) Schedule(ctx context.Context, g *ExecutionGraph, done chan 
 
 	var wg = sync.WaitGroup{}
 
+	// The handlers run after the steps, also when the steps were ended by
+	// the timeout: they must not inherit the expired deadline.
+	handlerCtx := ctx
 	var cancel context.CancelFunc
 	if sc.timeout > 0 {
 		ctx, cancel = context.WithTimeout(ctx, sc.timeout)
@@ -277,7 +280,7 @@ func (sc *Scheduler) Schedule(ctx context.Context, g *ExecutionGraph, done chan 
 			n.data.Step.OutputVariables = g.outputVariables
 			n.mu.Unlock()
 
-			if err := sc.runHandlerNode(ctx, n); err != nil {
+			if err := sc.runHandlerNode(handlerCtx, n); err != nil {
 				sc.setLastError(err)
 			}
 			if done != nil {
